@@ -9,6 +9,7 @@
 
 from . import BSpline, compatibility, evaluators
 from ._utilities import export
+from .exceptions import GeomdlException
 
 
 @export
@@ -138,6 +139,10 @@ class Curve(BSpline.Curve):
             weights = [1.0 for _ in range(len(value))]
         else:
             weights = self.weights
+            if len(weights) != len(value):
+                raise GeomdlException("The number of control points (" + str(len(value)) + ") does not match the number " +
+                                      "of existing weights (" + str(len(weights)) + "); set the weighted control points " +
+                                      "to change the number of control points")
 
         # Generate weighted control points using the new control points
         ctrlptsw = compatibility.combine_ctrlpts_weights(value, weights)
@@ -350,6 +355,10 @@ class Surface(BSpline.Surface):
             weights = [1.0 for _ in range(len(value))]
         else:
             weights = self.weights
+            if len(weights) != len(value):
+                raise GeomdlException("The number of control points (" + str(len(value)) + ") does not match the number " +
+                                      "of existing weights (" + str(len(weights)) + "); set the weighted control points " +
+                                      "to change the number of control points")
 
         # Generate weighted control points using the new control points
         ctrlptsw = compatibility.combine_ctrlpts_weights(value, weights)
@@ -538,6 +547,10 @@ class Volume(BSpline.Volume):
             weights = [1.0 for _ in range(len(value))]
         else:
             weights = self.weights
+            if len(weights) != len(value):
+                raise GeomdlException("The number of control points (" + str(len(value)) + ") does not match the number " +
+                                      "of existing weights (" + str(len(weights)) + "); set the weighted control points " +
+                                      "to change the number of control points")
 
         # Generate weighted control points using the new control points
         ctrlptsw = compatibility.combine_ctrlpts_weights(value, weights)
